@@ -9,6 +9,10 @@ consumer into a consumer-private binary heap:
 with `priorityIntake.push/drain`, `chainNext`, `chainUnlink` of actor/priority_intake.go.
 One transition per atomic site; the heap operations are plain consumer-side code and happen inside
 the step of the preceding atomic operation.
+
+GHOST state (not in the Go code, written but never read by any step, invisible to the tie): `stack`
+is the content of the Treiber stack (newest first), `batch` the nodes of the consumer's current drain
+in arrival order (oldest first), `done` how many of them have been moved into the heap.
 -/
 import GoaktVerif.Model.C04.Core
 import GoaktVerif.Model.C04.Heap
@@ -31,9 +35,19 @@ structure Sh where
   heap : List (Nat × Nat)       -- consumer-private heap slice
   seq : Nat                     -- q.seq (stable variants)
   length : Int                  -- q.length
+  stack : List Nat := []        -- ghost
+  batch : List Nat := []        -- ghost
+  done : Nat := 0               -- ghost
 
 def Sh.setNext (s : Sh) (n : Nat) (x : Option Nat) : Sh :=
   { s with next := fun m => if m = n then x else s.next m }
+
+/-- `chainUnlink(n)` then the heap push of `n` (with the next arrival number); ghost: one more node of
+the batch is done -/
+def Sh.moveToHeap (k : Conf) (s : Sh) (n : Nat) : Sh :=
+  let s1 := s.setNext n none
+  { s1 with heap := Heap.push k.ltItem s1.heap (n, s1.seq), seq := if k.stable then s1.seq + 1 else s1.seq,
+            done := s1.done + 1 }
 
 inductive PC where
   | enqU (v : Nat)                          -- Enqueue (unbounded): `Add:length` (+1)
@@ -83,12 +97,12 @@ def exec (k : Conf) (s : Sh) : PC → Sh × Next PC
   | .push1 v => (s, .goto (.push2 v s.head))
   | .push2 v old => (s.setNext v old, .goto (.push3 v old))
   | .push3 v old =>
-    if s.head = old then ({ s with head := some v }, .ret .ok) else (s, .goto (.push1 v))
+    if s.head = old then ({ s with head := some v, stack := v :: s.stack }, .ret .ok) else (s, .goto (.push1 v))
   | .deq1 => if s.length = 0 then (s, .ret .none) else (s, .goto .deq2)
   | .deq2 =>
     match s.head with
     | none => afterDrain k s
-    | some b => ({ s with head := none }, .goto (.deq3 b none))
+    | some b => ({ s with head := none, stack := [], batch := s.stack.reverse, done := 0 }, .goto (.deq3 b none))
   | .deq3 cur prev => (s, .goto (.deq4 cur prev (s.next cur)))
   | .deq4 cur prev next =>
     let s' := s.setNext cur prev
@@ -97,8 +111,7 @@ def exec (k : Conf) (s : Sh) : PC → Sh × Next PC
     | none => (s', .goto (.deq5 cur))
   | .deq5 n => (s, .goto (.deq6 n (s.next n)))
   | .deq6 n next =>
-    let s1 := s.setNext n none
-    let s2 := { s1 with heap := Heap.push k.ltItem s1.heap (n, s1.seq), seq := if k.stable then s1.seq + 1 else s1.seq }
+    let s2 := s.moveToHeap k n
     match next with
     | some nx => (s2, .goto (.deq5 nx))
     | none => afterDrain k s2
